@@ -402,6 +402,37 @@ theorem headOK_quoteIdent (v : List Char) : HeadOK (quoteIdent [v]) := by
     rw [C06.esc_identChars _ hall]
     exact ⟨c, tl, rfl, (isIdentFirstChar_facts hc).1, (isIdentFirstChar_facts hc).2.2.2.2⟩
 
+theorem scanFrom_minus (pos : Pos) (r r1 : Cursor) : scanFrom '-' pos r r1 = scanFrom2 '-' pos r1 := by
+  unfold scanFrom
+  simp only [show isWhitespace '-' = false from by decide, show isLetter '-' = false from by decide,
+    show isDigit '-' = false from by decide, show ('-' == '_') = false from by decide]
+  simp only [show ('-' : Char) ≠ eofRune from by decide, show ('-' : Char) ≠ '"' from by decide,
+    show ('-' : Char) ≠ '\'' from by decide, show ('-' : Char) ≠ '.' from by decide, show ('-' : Char) ≠ '$' from by decide,
+    Bool.or_self, Bool.false_eq_true, if_false]
+
+/-- A minus sign before a digit is the SUB token. -/
+theorem scan_minus (r : Cursor) (d : Char) (t : List Char) (hd : isDigit d = true) (h : r.chars = '-' :: d :: t) :
+    (scan r).1.tok = .SUB ∧ (scan r).1.lit = [] ∧ (scan r).2.chars = d :: t := by
+  obtain ⟨h1, h2, _⟩ := Cursor.chars_cons h
+  obtain ⟨_, _, p3⟩ := Cursor.chars_cons h2
+  have hne : d ≠ '-' := by intro e; subst e; revert hd; decide
+  unfold scan
+  rw [h1, scanFrom_minus]
+  unfold scanFrom2
+  simp only [show ('-' : Char) ≠ '+' from by decide, if_false, if_true, p3, hne]
+  exact ⟨trivial, trivial, h2⟩
+
+theorem scan_true_false (r : Cursor) (b : Bool) (k : List Char) (hk : SepU k)
+    (h : r.chars = (if b then "true".toList else "false".toList) ++ k) :
+    (scan r).1.tok = (if b then .TRUE else .FALSE) ∧ Rem (scan r).2 k := by
+  cases b with
+  | true =>
+    have := scan_word r 't' ['r', 'u', 'e'] k (by decide) (by decide) hk.idEnd h
+    exact ⟨this.1.trans (by decide), this.2.2⟩
+  | false =>
+    have := scan_word r 'f' ['a', 'l', 's', 'e'] k (by decide) (by decide) hk.idEnd h
+    exact ⟨this.1.trans (by decide), this.2.2⟩
+
 /-! ## Part 3: parser states and texts -/
 
 /-- The parser stands before `txt`, possibly after one blank. -/
@@ -420,23 +451,33 @@ theorem At.atW {s : PState} {txt : List Char} (h : At s (' ' :: txt)) : AtW s tx
 
 def Sig (t : Token) : Prop := t ≠ .BOUNDPARAM ∧ t ≠ .WS ∧ t ≠ .COMMENT
 
-/-- The first significant token of a text, as `ScanIgnoreWhitespace` delivers it. -/
-theorem scanIW_first (s : PState) (txt : List Char) (h : AtW s txt) (hh : HeadOK txt) (tok : Token)
+/-- The first significant token of a text, as `ScanIgnoreWhitespace` delivers it; pushing it back
+leaves the parser before the text. -/
+theorem scanIW_first' (s : PState) (txt : List Char) (h : AtW s txt) (hh : HeadOK txt) (tok : Token)
     (lit : List Char) (Q : Cursor → Prop)
     (hs : ∀ r : Cursor, r.chars = txt → (scan r).1.tok = tok ∧ (scan r).1.lit = lit ∧ Q (scan r).2)
     (hsig : Sig tok) :
-    ∃ lx s1 r1, scanIW.run s = .ok (lx, s1) ∧ lx.tok = tok ∧ lx.lit = lit ∧ Just s1 lx r1 ∧ Q r1 ∧ Same s s1 := by
+    ∃ lx s1 r1, scanIW.run s = .ok (lx, s1) ∧ lx.tok = tok ∧ lx.lit = lit ∧ Just s1 lx r1 ∧ Q r1 ∧ Same s s1 ∧
+      AtW (unsc s1) txt := by
   obtain ⟨r0, hl, hr | hr⟩ := h
   · obtain ⟨h1, h2, h3⟩ := hs r0 hr
     obtain ⟨s1, k1, k2, k3⟩ := scanIW_look s r0 hl (by rw [h1]; exact hsig.1) (by rw [h1]; exact hsig.2.1)
       (by rw [h1]; exact hsig.2.2)
-    exact ⟨_, s1, _, k1, h1, h2, k2, h3, k3⟩
+    exact ⟨_, s1, _, k1, h1, h2, k2, h3, k3, ⟨r0, look_unsc s1 r0 k2, Or.inl hr⟩⟩
   · obtain ⟨c, t, rfl, hc1, hc2⟩ := hh
     obtain ⟨w1, w2⟩ := scan_space r0 c t hc1 hc2 hr
     obtain ⟨h1, h2, h3⟩ := hs (scan r0).2 w2
     obtain ⟨s1, k1, k2, k3⟩ := scanIW_look_ws s r0 hl w1 (by rw [h1]; exact hsig.1) (by rw [h1]; exact hsig.2.1)
       (by rw [h1]; exact hsig.2.2)
-    exact ⟨_, s1, _, k1, h1, h2, k2, h3, k3⟩
+    exact ⟨_, s1, _, k1, h1, h2, k2, h3, k3, ⟨(scan r0).2, look_unsc s1 _ k2, Or.inl w2⟩⟩
+
+theorem scanIW_first (s : PState) (txt : List Char) (h : AtW s txt) (hh : HeadOK txt) (tok : Token)
+    (lit : List Char) (Q : Cursor → Prop)
+    (hs : ∀ r : Cursor, r.chars = txt → (scan r).1.tok = tok ∧ (scan r).1.lit = lit ∧ Q (scan r).2)
+    (hsig : Sig tok) :
+    ∃ lx s1 r1, scanIW.run s = .ok (lx, s1) ∧ lx.tok = tok ∧ lx.lit = lit ∧ Just s1 lx r1 ∧ Q r1 ∧ Same s s1 := by
+  obtain ⟨lx, s1, r1, h1, h2, h3, h4, h5, h6, _⟩ := scanIW_first' s txt h hh tok lit Q hs hsig
+  exact ⟨lx, s1, r1, h1, h2, h3, h4, h5, h6⟩
 
 /-- `Scan()` on the first token of a text (no blank skipped). -/
 theorem pscan_first (s : PState) (r0 : Cursor) (h : Look s r0) (tok : Token) (ht : tok ≠ .BOUNDPARAM)
@@ -535,6 +576,46 @@ theorem unary_integer (F : Nat) (s s1 : PState) (lx : Lexeme) (r1 : Cursor) (n :
   subst htok hlit
   exact parseIntegerLit_natDigits n hn pos s1
 
+theorem parseIntegerLit_unsigned (n : Nat) (h1 : maxInt64 < (n : Int)) (h2 : (n : Int) ≤ maxUInt64) (pos : Pos)
+    (s : PState) : (parseIntegerLit (natDigits n) pos).run s = .ok (.unsigned n, s) := by
+  unfold parseIntegerLit
+  rw [splitSign_natDigits]
+  have hd := natDigits_all_digits n
+  have hne := natDigits_ne_nil n
+  have hh : (natDigits n).head? ≠ some '-' ∧ (natDigits n).head? ≠ some '+' := by
+    match hx : natDigits n with
+    | [] => exact absurd hx hne
+    | c :: rest =>
+      have hc : isDigit c = true := hd c (by rw [hx]; exact List.mem_cons_self)
+      constructor
+      · intro h; simp at h; rw [h] at hc; exact absurd hc (by decide)
+      · intro h; simp at h; rw [h] at hc; exact absurd hc (by decide)
+  have hnot : ¬ (minInt64 ≤ (n : Int) ∧ (n : Int) ≤ maxInt64) := by omega
+  simp [allDigits_natDigits, digitsVal_natDigits, hnot, hh.1, hh.2, h2, StateT.run, pure, StateT.pure, Except.pure]
+
+theorem unary_unsigned (F : Nat) (s s1 : PState) (lx : Lexeme) (r1 : Cursor) (n : Nat)
+    (h1 : scanIW.run s = .ok (lx, s1)) (hj : Just s1 lx r1) (htok : lx.tok = .INTEGER)
+    (hlit : lx.lit = natDigits n) (hn1 : maxInt64 < (n : Int)) (hn2 : (n : Int) ≤ maxUInt64) :
+    (parseUnaryExpr (F + 1)).run s = .ok (.unsigned n, s1) := by
+  have hsig : lx.tok ≠ .BOUNDPARAM ∧ lx.tok ≠ .WS ∧ lx.tok ≠ .COMMENT := by rw [htok]; decide
+  have hnp : ¬ lx.tok = .LPAREN := by rw [htok]; decide
+  rw [parseUnaryExpr, P.run_bind _ _ _ _ _ h1, P.run_ite, if_neg hnp, P.run_bind _ _ _ _ _ (unscan_run' s1),
+    P.run_bind _ _ _ _ _ (scanIW_redeliver s1 lx r1 hj hsig.1 hsig.2.1 hsig.2.2)]
+  obtain ⟨tok, pos, lit⟩ := lx
+  simp only at htok hlit
+  subst htok hlit
+  exact parseIntegerLit_unsigned n hn1 hn2 pos s1
+
+theorem unary_bool (F : Nat) (s s1 : PState) (lx : Lexeme) (r1 : Cursor) (b : Bool)
+    (h1 : scanIW.run s = .ok (lx, s1)) (hj : Just s1 lx r1) (htok : lx.tok = (if b then .TRUE else .FALSE)) :
+    (parseUnaryExpr (F + 1)).run s = .ok (.boolean b, s1) := by
+  have hsig : lx.tok ≠ .BOUNDPARAM ∧ lx.tok ≠ .WS ∧ lx.tok ≠ .COMMENT := by cases b <;> (rw [htok]; decide)
+  have hnp : ¬ lx.tok = .LPAREN := by cases b <;> (rw [htok]; decide)
+  rw [parseUnaryExpr, P.run_bind _ _ _ _ _ h1, P.run_ite, if_neg hnp, P.run_bind _ _ _ _ _ (unscan_run' s1),
+    P.run_bind _ _ _ _ _ (scanIW_redeliver s1 lx r1 hj hsig.1 hsig.2.1 hsig.2.2)]
+  obtain ⟨tok, pos, lit⟩ := lx
+  cases b <;> (simp only at htok; subst htok; rfl)
+
 /-- An identifier that is followed by neither `(`, `.` nor `::` is a plain variable reference; the
 token after it stays pushed back. -/
 theorem unary_ident_plain (F : Nat) (s s1 : PState) (lx : Lexeme) (r1 : Cursor)
@@ -592,6 +673,12 @@ theorem print_binary (op : Token) (l r : Expr) :
 theorem print_paren (e : Expr) : (Expr.paren e).print = ['('] ++ e.print ++ [')'] := rfl
 theorem print_string (v : Str) : (Expr.string v).print = quoteString v := rfl
 theorem print_integer (v : Int) : (Expr.integer v).print = intDigits v := rfl
+theorem print_unsigned (v : Nat) : (Expr.unsigned v).print = natDigits v := rfl
+theorem print_boolean (b : Bool) : (Expr.boolean b).print = (if b then "true".toList else "false".toList) := rfl
+theorem print_integer_nat (m : Nat) : (Expr.integer (m : Int)).print = natDigits m := by
+  rw [print_integer]; unfold intDigits; simp
+theorem print_integer_neg (n : Int) (h : n < 0) : (Expr.integer n).print = '-' :: natDigits n.natAbs := by
+  rw [print_integer]; unfold intDigits; simp [h]
 theorem print_varRef (v : Str) (t : DataType) :
     (Expr.varRef v t).print = quoteIdent [v] ++ (if t = .Unknown then [] else [':', ':'] ++ t.str) := rfl
 theorem print_call (n : Str) (a : List Expr) :
@@ -738,7 +825,8 @@ mutual
   every binary node carries one of the eighteen operators and its operands are grouped as the five
   levels demand (an unparenthesised left operand binds at least as tightly as its parent, a right
   one strictly tighter — this is what excludes the `a / -1 * b` finding); leaves are variable
-  references, string and integer literals, parenthesised expressions. -/
+  references, string, integer (of either sign), unsigned and boolean literals, parenthesised
+  expressions. -/
   def rtOK : Expr → Bool
     | .binary op l r =>
       op.isOperator && !op.isRegexOp && rtOK l && rtOK r && topGeB op.precedence l && topGeB (op.precedence + 1) r
@@ -746,7 +834,9 @@ mutual
     | .call _ _ => false
     | .varRef v t => exprB v && (t == .Unknown)
     | .string v => exprB v
-    | .integer n => decide (0 ≤ n) && decide (n ≤ maxInt64)
+    | .integer n => decide (minInt64 ≤ n) && decide (n ≤ maxInt64)
+    | .unsigned v => decide (maxInt64 < (v : Int)) && decide ((v : Int) ≤ maxUInt64)
+    | .boolean _ => true
     | _ => false
   def rtOKArgs : List Expr → Bool
     | [] => true
@@ -815,6 +905,55 @@ def SpecL (F : Nat) : Prop := ∀ (s : PState) (root : Expr) (rest : List (Token
 /-- `ParseExpr` on the printed form of an expression of the class. -/
 def SpecE (F : Nat) : Prop := ∀ (s : PState) (e : Expr) (k : List Char), rtOK e = true → SepC k →
   AtW s (e.print ++ k) → wp (parseExpr F) s (fun e' s' => e' = e ∧ At s' k ∧ Same s s') IsFuel
+
+/-- What the unary minus of `parseUnaryExpr` makes of a literal. -/
+def negOf : Expr → Expr
+  | .number v => .number { v with neg := !v.neg }
+  | .integer v => .integer (wrap64 (v * -1))
+  | .unsigned _ => .integer minInt64
+  | .duration v => .duration (wrap64 (v * -1))
+  | e => e
+
+def NegArg (a : Expr) : Prop :=
+  (∃ v, a = .number v) ∨ (∃ v, a = .integer v) ∨ a = .unsigned 9223372036854775808 ∨ (∃ v, a = .duration v)
+
+/-- A minus sign directly before a literal of the class: the literal is parsed by the recursive
+call and negated. -/
+theorem unary_neg (F : Nat) (ihU : SpecU F) (s s1 : PState) (lx : Lexeme) (r1 : Cursor)
+    (hrun : scanIW.run s = .ok (lx, s1)) (hj : Just s1 lx r1) (htok : lx.tok = .SUB)
+    (a' : Expr) (k : List Char) (ha' : rtOK a' = true) (hnb : NB a') (hk : SepU k)
+    (hch : r1.chars = a'.print ++ k) (hhead : HeadOK a'.print) (tok2 : Token)
+    (htok2 : tok2 = .NUMBER ∨ tok2 = .INTEGER ∨ tok2 = .DURATIONVAL)
+    (hs : ∀ r : Cursor, r.chars = a'.print ++ k → (scan r).1.tok = tok2) (hneg : NegArg a') :
+    wp (parseUnaryExpr (F + 1)) s (fun e' s' => e' = negOf a' ∧ At s' k ∧ Same s1 s') IsFuel := by
+  have hsig : lx.tok ≠ .BOUNDPARAM ∧ lx.tok ≠ .WS ∧ lx.tok ≠ .COMMENT := by rw [htok]; decide
+  have hnp : ¬ lx.tok = .LPAREN := by rw [htok]; decide
+  rw [parseUnaryExpr, wp_bind, wp_of_run_ok hrun, wp_ite, if_neg hnp, wp_bind, unscan_wp, wp_bind,
+    wp_of_run_ok (scanIW_redeliver s1 lx r1 hj hsig.1 hsig.2.1 hsig.2.2)]
+  obtain ⟨hn1, hb1, hr1⟩ := hj
+  obtain ⟨tok, pos, lit⟩ := lx
+  simp only at htok
+  subst htok
+  dsimp only
+  obtain ⟨lx2, s2, r2, hrun2, htk2, _, hj2, _, hsame2, hatw2⟩ := scanIW_first' s1 (a'.print ++ k)
+    ⟨r1, Or.inl ⟨hn1, hr1⟩, Or.inl hch⟩ (hhead.append k) tok2 (scan r1).1.lit (fun _ => True)
+    (fun r hr => ⟨hs r hr, by
+      have e : (scan r).1.sig = (scan r1).1.sig :=
+        (scan_loc (t1 := []) (t2 := []) (r1 := r) (r2 := r1)
+          ⟨r.chars, by simp [Cursor.chars], by rw [hr, ← hch]; simp [Cursor.chars]⟩ TailOK.nil (Nat.zero_le _)).1
+      exact congrArg Prod.snd e, trivial⟩)
+    (by rcases htok2 with h | h | h <;> subst h <;> exact ⟨by decide, by decide, by decide⟩)
+  rw [wp_bind, wp_of_run_ok hrun2, wp_ite,
+    if_pos (by rw [htk2]; rcases htok2 with h | h | h <;> subst h <;> simp), wp_bind, unscan_wp, wp_bind]
+  refine wp_mono (ihU (unsc s2) a' k ha' hnb hk hatw2) ?_ (fun _ h => h)
+  intro lit2 s3 ⟨hl, hat3, hsame3⟩
+  subst hl
+  have hsm : Same s1 s3 := (hsame2.trans (unsc_same s2)).trans hsame3
+  rcases hneg with ⟨v, rfl⟩ | ⟨v, rfl⟩ | rfl | ⟨v, rfl⟩
+  · dsimp only; rw [wp_pure]; exact ⟨by simp [negOf], hat3, hsm⟩
+  · dsimp only; rw [wp_pure]; exact ⟨by simp [negOf], hat3, hsm⟩
+  · dsimp only; simp only [if_true]; rw [wp_pure]; exact ⟨by simp [negOf], hat3, hsm⟩
+  · dsimp only; rw [wp_pure]; exact ⟨by simp [negOf], hat3, hsm⟩
 
 theorem specE_step (F : Nat) (ihU : SpecU F) (ihL : SpecL F) : SpecE (F + 1) := by
   intro s e k he hk hat
@@ -930,17 +1069,79 @@ theorem specU_step (F : Nat) (ihE : SpecE F) (_ihU : SpecU F) : SpecU (F + 1) :=
   | integer n =>
     rw [rtOK] at ha
     simp only [Bool.and_eq_true, decide_eq_true_eq] at ha
-    obtain ⟨m, rfl⟩ := Int.eq_ofNat_of_zero_le ha.1
-    have hpr : (Expr.integer (m : Int)).print = natDigits m := by
-      rw [print_integer]; unfold intDigits; simp
-    rw [hpr] at hat
     obtain ⟨x, t, rfl, hx1, hx2, hx3, _, _, _⟩ := sepU_head_facts hk
+    by_cases hpos : 0 ≤ n
+    · obtain ⟨m, rfl⟩ := Int.eq_ofNat_of_zero_le hpos
+      rw [print_integer_nat] at hat
+      obtain ⟨lx, s1, r1, hrun, htok, hlit, hj, hq, hsame⟩ := scanIW_first s _ hat
+        ((natDigits_head m).append _) .INTEGER (natDigits m) (fun r => r.chars = x :: t)
+        (fun r hr => scan_digits r (natDigits m) x t (natDigits_ne_nil m) (natDigits_all_digits m) hx1 hx2 hx3 hr)
+        ⟨by decide, by decide, by decide⟩
+      rw [wp_of_run_ok (unary_integer F s s1 lx r1 m hrun hj htok hlit ha.2)]
+      exact ⟨rfl, hj.at (Or.inl hq), hsame⟩
+    · have hneg : n < 0 := by omega
+      rw [print_integer_neg n hneg] at hat
+      obtain ⟨d, dt, hdt, hd⟩ : ∃ d dt, natDigits n.natAbs = d :: dt ∧ isDigit d = true := by
+        have hne := natDigits_ne_nil n.natAbs
+        cases h : natDigits n.natAbs with
+        | nil => exact absurd h hne
+        | cons c t' => exact ⟨c, t', rfl, natDigits_all_digits n.natAbs c (by rw [h]; simp)⟩
+      obtain ⟨lx, s1, r1, hrun, htok, _, hj, hq, hsame⟩ := scanIW_first s _ hat
+        ⟨'-', _, rfl, by decide, by decide⟩ .SUB [] (fun r => r.chars = natDigits n.natAbs ++ x :: t)
+        (fun r hr => by
+          have := scan_minus r d (dt ++ x :: t) hd (by rw [hr, hdt]; rfl)
+          rw [hdt]; exact this)
+        ⟨by decide, by decide, by decide⟩
+      have hscan : ∀ r : Cursor, r.chars = natDigits n.natAbs ++ x :: t → (scan r).1.tok = .INTEGER := fun r hr =>
+        (scan_digits r (natDigits n.natAbs) x t (natDigits_ne_nil _) (natDigits_all_digits _) hx1 hx2 hx3 hr).1
+      have hmin : minInt64 ≤ n := ha.1
+      by_cases hm : (n.natAbs : Int) ≤ maxInt64
+      · have h := unary_neg F _ihU s s1 lx r1 hrun hj htok (.integer (n.natAbs : Int)) (x :: t)
+          (by rw [rtOK]; simp only [Bool.and_eq_true, decide_eq_true_eq]; exact ⟨by unfold minInt64; omega, hm⟩)
+          (fun _ _ _ he => by cases he) hk (by rw [print_integer_nat]; exact hq)
+          (by rw [print_integer_nat]; exact natDigits_head _) .INTEGER (Or.inr (Or.inl rfl))
+          (by rw [print_integer_nat]; exact hscan) (Or.inr (Or.inl ⟨_, rfl⟩))
+        refine wp_mono h ?_ (fun _ h => h)
+        intro e' s' ⟨he', hat', hsame'⟩
+        refine ⟨?_, hat', hsame.trans hsame'⟩
+        rw [he', negOf]
+        have : (n.natAbs : Int) * -1 = n := by omega
+        rw [this, wrap64_id ha.1 ha.2]
+      · have hn : n = minInt64 := by unfold minInt64 maxInt64 at *; omega
+        have hna : n.natAbs = 9223372036854775808 := by rw [hn]; rfl
+        have h := unary_neg F _ihU s s1 lx r1 hrun hj htok (.unsigned n.natAbs) (x :: t)
+          (by rw [rtOK, hna]; decide)
+          (fun _ _ _ he => by cases he) hk (by rw [print_unsigned]; exact hq)
+          (by rw [print_unsigned]; exact natDigits_head _) .INTEGER (Or.inr (Or.inl rfl))
+          (by rw [print_unsigned]; exact hscan) (Or.inr (Or.inr (Or.inl (by rw [hna]))))
+        refine wp_mono h ?_ (fun _ h => h)
+        intro e' s' ⟨he', hat', hsame'⟩
+        exact ⟨by rw [he', negOf, hn], hat', hsame.trans hsame'⟩
+  | unsigned v =>
+    rw [rtOK] at ha
+    simp only [Bool.and_eq_true, decide_eq_true_eq] at ha
+    obtain ⟨x, t, rfl, hx1, hx2, hx3, _, _, _⟩ := sepU_head_facts hk
+    rw [print_unsigned] at hat
     obtain ⟨lx, s1, r1, hrun, htok, hlit, hj, hq, hsame⟩ := scanIW_first s _ hat
-      ((natDigits_head m).append _) .INTEGER (natDigits m) (fun r => r.chars = x :: t)
-      (fun r hr => scan_digits r (natDigits m) x t (natDigits_ne_nil m) (natDigits_all_digits m) hx1 hx2 hx3 hr)
+      ((natDigits_head v).append _) .INTEGER (natDigits v) (fun r => r.chars = x :: t)
+      (fun r hr => scan_digits r (natDigits v) x t (natDigits_ne_nil v) (natDigits_all_digits v) hx1 hx2 hx3 hr)
       ⟨by decide, by decide, by decide⟩
-    rw [wp_of_run_ok (unary_integer F s s1 lx r1 m hrun hj htok hlit ha.2)]
+    rw [wp_of_run_ok (unary_unsigned F s s1 lx r1 v hrun hj htok hlit ha.1 ha.2)]
     exact ⟨rfl, hj.at (Or.inl hq), hsame⟩
+  | boolean b =>
+    rw [print_boolean] at hat
+    obtain ⟨lx, s1, r1, hrun, htok, _, hj, hq, hsame⟩ := scanIW_first s _ hat
+      (by cases b <;> exact ⟨_, _, rfl, by decide, by decide⟩) (if b then .TRUE else .FALSE) [] (fun r => Rem r k)
+      (fun r hr => by
+        have := scan_true_false r b k hk hr
+        refine ⟨this.1, ?_, this.2⟩
+        cases b with
+        | true => exact (scan_word r 't' ['r', 'u', 'e'] k (by decide) (by decide) hk.idEnd hr).2.1.trans (by decide)
+        | false =>
+          exact (scan_word r 'f' ['a', 'l', 's', 'e'] k (by decide) (by decide) hk.idEnd hr).2.1.trans (by decide))
+      (by cases b <;> exact ⟨by decide, by decide, by decide⟩)
+    rw [wp_of_run_ok (unary_bool F s s1 lx r1 b hrun hj htok)]
+    exact ⟨rfl, hj.at hq, hsame⟩
   | varRef v t =>
     rw [rtOK] at ha
     simp only [Bool.and_eq_true, beq_iff_eq] at ha
@@ -1039,12 +1240,16 @@ theorem print_noCR : ∀ e : Expr, rtOK e = true → NoCR e.print
     rw [print_string]
     exact noCR_quoteString v (exprB_expressible (by rw [rtOK] at h; exact h))
   | .integer n, h => by
-    rw [rtOK] at h
-    simp only [Bool.and_eq_true, decide_eq_true_eq] at h
-    obtain ⟨m, rfl⟩ := Int.eq_ofNat_of_zero_le h.1
-    have hpr : (Expr.integer (m : Int)).print = natDigits m := by
-      rw [print_integer]; unfold intDigits; simp
-    rw [hpr]; exact noCR_natDigits m
+    by_cases hpos : 0 ≤ n
+    · obtain ⟨m, rfl⟩ := Int.eq_ofNat_of_zero_le hpos
+      rw [print_integer_nat]; exact noCR_natDigits m
+    · rw [print_integer_neg n (by omega)]
+      have h1 : NoCR ['-'] := by intro c hc; simp at hc; subst hc; decide
+      exact h1.append (noCR_natDigits _)
+  | .unsigned v, h => by rw [print_unsigned]; exact noCR_natDigits v
+  | .boolean b, h => by
+    rw [print_boolean]
+    cases b <;> (intro c hc; simp at hc; rcases hc with rfl | rfl | rfl | rfl | rfl <;> decide)
   | .varRef v t, h => by
     rw [rtOK] at h
     simp only [Bool.and_eq_true, beq_iff_eq] at h
@@ -1057,8 +1262,6 @@ theorem print_noCR : ∀ e : Expr, rtOK e = true → NoCR e.print
   | .wildcard _, h => by simp [rtOK] at h
   | .regex _, h => by simp [rtOK] at h
   | .number _, h => by simp [rtOK] at h
-  | .unsigned _, h => by simp [rtOK] at h
-  | .boolean _, h => by simp [rtOK] at h
   | .duration _, h => by simp [rtOK] at h
   | .time _, h => by simp [rtOK] at h
   | .nil, h => by simp [rtOK] at h
